@@ -186,6 +186,7 @@ class Executor:
         self.call_hook = None     # optional callable(ex, path, fname, args) for call logging
         self.base_heap = {}       # heap snapshot after init (globals)
         self.merge_funcs = set()  # functions whose symbolic branches are merged at the post-dominator
+        self.merge_all = False    # merge in every function (group mode: the variable-time loops may live in helpers)
         self.finished_aside = []  # paths that ended (panic/return) inside a merged region
         self.merges = 0
         from . import models
@@ -536,7 +537,7 @@ class Executor:
             path.outcome = ("error", "both branches infeasible (inconsistent path condition)")
             return None
         fr = path.frames[-1]
-        if len(kids) == 2 and fr.fn["name"] in self.merge_funcs:
+        if len(kids) == 2 and (self.merge_all or fr.fn["name"] in self.merge_funcs):
             J = self.prog.ipdom(fr.fn["name"]).get(fr.block, -1)
             if J >= 0:
                 return self.fork_and_merge(path, kids, (len(path.frames), fr.fn["name"], J))
@@ -792,6 +793,17 @@ class Executor:
             env[ins["name"]] = V(ins["x"])[ins["field"]]
         elif op == "MakeInterface":
             env[ins["name"]] = Iface(ins["xtype"], V(ins["x"]))
+        elif op == "TypeAssert":
+            x = V(ins["x"])
+            if ins.get("toiface"):
+                raise ExecError("type assertion to an interface type")
+            ok = isinstance(x, Iface) and x.type == ins["asserted"]
+            if ins.get("commaok"):
+                env[ins["name"]] = ((x.val if ok else self.to_value(self.zero(T(ins["asserted"])))), ok)
+            elif ok:
+                env[ins["name"]] = x.val
+            else:
+                raise GoPanic("interface conversion: value is %s, not %s" % (getattr(x, "type", None), ins["asserted"]))
         elif op == "MakeSlice":
             n = V(ins["len"])
             c = V(ins["cap"])
